@@ -607,3 +607,15 @@ Definition nonconforming (fs : list func) (subs : list string) : list (string * 
     harness scenario yield-to-stalled-caller-then-resume ties the model). *)
 Definition yield_retry_keeps_invocation (o : option bool) : bool :=
   match o with Some false => false | _ => true end.
+
+(** Every place where the dealer forgets an invocation, or overwrites its
+    timer handle, stops the call-timeout timer first (the [cancel_first] switch
+    of [Conc/CallTimers.v]): the translator lists the sites of
+    [delete(_.invocations, _)] and [_.timerCancel = _] with whether a
+    [timerCancel()] call precedes them in an enclosing block (up to the
+    innermost loop body). *)
+Definition invocation_drops_cancel_timer (l : list (string * string * bool)) : bool :=
+  forallb (fun t => snd t) l.
+
+Definition bad_invocation_drops (l : list (string * string * bool)) : list (string * string) :=
+  map fst (filter (fun t => negb (snd t)) l).
